@@ -24,6 +24,18 @@ def _sg_stall_work(args):
   return out
 
 
+def _sg_real_work(args):
+  w, n, count, seed = args
+  out = []
+  for i in range(count):
+    rng = random.Random((seed << 16) ^ (i * 104729) ^ sum(map(ord, w)) ^ n)
+    pol = dsched.RandomPolicy(rng, rng.choice([0.0, 0.3, 0.6])) if i % 2 else dsched.PCTPolicy(rng, 3, 40)
+    r = utildrive.real_singleton_run(w, n, dsched.FairSuffix(pol, 400))
+    if not r.get("skipped"):
+      out.append(("declared " + w, n, -2, r))
+  return out
+
+
 def trace_validate(module, records, cfg="SPECIFICATION TSpec\nCHECK_DEADLOCK FALSE\n"):
   path = os.path.join(common.work_dir(), module + "_%d.ndjson" % (id(records) % 10**7))
   with open(path, "w") as f:
@@ -111,6 +123,8 @@ def c30(tier):
   with mp.get_context("fork").Pool(12) as pool:
     allres = [x for part in pool.map(_sg_work, jobs) for x in part]
     allres += [x for part in pool.map(_sg_stall_work, [(k, n, 60 if tier == "quick" else 1500, common.seed()) for k in KLASSES for n in (2, 3)]) for x in part]
+    # the library's own declarations of the five singletons, first requested by two or three threads at once
+    allres += [x for part in pool.map(_sg_real_work, [(w, n, 30 if tier == "quick" else 600, common.seed()) for w in utildrive.REAL_SINGLETONS for n in (2, 3)]) for x in part]
   recs = [{"tid": i, "made": r["made"], "got": r["got"], "final": r["final"], "errors": r["errors"], "outcome": r["outcome"], "done": r["done"]}
           for i, (k, n, b, r) in enumerate(allres)]
   v, t = trace_validate("SingletonTrace", recs)
@@ -121,7 +135,8 @@ def c30(tier):
                      "errs": r["errs"]})
   run.add(traces_validated_against_impl=len(recs), evaluations=len(recs), states=t.distinct, transitions=t.generated,
           distinct_nontrivial=len({json.dumps([k, n, [c0[0] for c0 in r["choices"]]]) for k, n, b, r in allres}),
-          two_thread_interleavings={k: sum(1 for kk, n, b, r in allres if kk == k and n == 2) for k in KLASSES})
+          two_thread_interleavings={k: sum(1 for kk, n, b, r in allres if kk == k and n == 2) for k in KLASSES},
+          first_requests_of_the_declared_singletons=sum(1 for kk, n, b, r in allres if b == -2))
   run.sample({"klass": allres[0][0], "threads": allres[0][1], "ops": allres[0][3]["ops"], "got": allres[0][3]["got"]})
   # "for the life of the process": histories of fabric start / stop / clear / subscribe / publish calls (the real module-level singletons,
   # FabricTrace.tla clause NotSingle): after any of them every singleton still yields the object it yielded at first
